@@ -1008,6 +1008,22 @@ fn history_case(opts: &Opts, case: &Case, entry: &Entry, sink: &mut Sink) {
             })
         });
     }
+    // second oracle: the complete result (error offset and detail included) of the same input parsed
+    // alone on a fresh OS thread
+    let baseline: Vec<Real> = inputs
+        .iter()
+        .map(|inp| {
+            let inp = inp.clone();
+            let f = entry.run;
+            std::thread::spawn(move || {
+                crate::real::silence_panics();
+                user::reset(Answers::default());
+                f(&inp, Mode::Plain)
+            })
+            .join()
+            .unwrap_or(Real::Panic("thread".into()))
+        })
+        .collect();
     let agrees = |real: &Real, exp: &Option<(bool, String)>| -> bool {
         match (real, exp) {
             (_, None) => true,
@@ -1070,12 +1086,12 @@ fn history_case(opts: &Opts, case: &Case, entry: &Entry, sink: &mut Sink) {
             sink.outcome(&format!("{}|{:?}", case.id, res.iter().map(|r| r.short()).collect::<Vec<_>>()));
             sink.sample(|| json!({"grammar": case.text, "history": seq.iter().map(|&i| inputs[i].clone()).collect::<Vec<_>>(), "results": res.iter().map(|r| r.short()).collect::<Vec<_>>() }));
             for (k, r) in res.iter().enumerate() {
-                if !agrees(r, &expect[seq[k]]) {
+                if !agrees(r, &expect[seq[k]]) || *r != baseline[seq[k]] {
                     sink.violation(
                         case,
                         &inputs[seq[k]],
                         "result-depends-on-history",
-                        format!("{:?}", expect[seq[k]]),
+                        format!("{} (reference model: {:?})", baseline[seq[k]].short(), expect[seq[k]]),
                         r.short(),
                         json!({"history": seq.iter().map(|&i| inputs[i].clone()).collect::<Vec<_>>(), "position_in_history": k, "threads": threads}),
                     );
